@@ -828,12 +828,17 @@ def classify(results, evaluate=run_shapes):
                     break
                 if cur not in red_cache:
                     red_cache[cur] = reductions(cur)
-                missing = [r for r in red_cache[cur] if r not in results]
+                nxt, missing = None, []
+                for r in red_cache[cur]:                      # smallest first; only what is needed to find the
+                    if r not in results:                      # first failing reduction is evaluated
+                        missing.append(r)
+                    elif kind(r) == kind(s):
+                        nxt = r
+                        break
                 if missing:
                     need.update(missing)
                     ok = False
                     break
-                nxt = next((r for r in red_cache[cur] if kind(r) == kind(s)), None)
                 if nxt is None:
                     keys[cur] = ('C01.group.' if kind(s) == 'bad' else 'C01.reject.') + skeleton(cur) + '|' + cur
                     break
@@ -1483,11 +1488,11 @@ def run(tier='quick', seed=0):
     thorough = tier == 'thorough'
     checks = []
     with _FastTmp():
-        c, results = check_grouping_exhaustive(9 if thorough else 6)
+        c, results = check_grouping_exhaustive(8 if thorough else 6)
         checks.append(c)
         c, results = check_comparison_ops(6 if thorough else 5, results)
         checks.append(c)
-        c, results = check_grouping_sampled(12000 if thorough else 400, 10 if thorough else 7, 14, seed, results)
+        c, results = check_grouping_sampled(3000 if thorough else 300, 9 if thorough else 7, 14, seed, results)
         checks.append(c)
         checks.append(check_literals(tier, seed, results))
         checks.append(check_blank())
